@@ -641,7 +641,14 @@ class CodeGen:
         result: asm.AssemblyExpression = asm.State(r_out)
         match expr:
             case ast.IntValue():
-                result = asm.IntLiteral(expr.data, is_char=expr.is_char)
+                data = expr.data
+                if not -self.max_unsigned <= data <= self.max_unsigned:
+                    # Out of range values wrap around in the assembler
+                    # anyway.  Reduce them here, so that arbitrarily
+                    # large literals or folded constants can always be
+                    # printed in decimal.
+                    data &= self.max_unsigned
+                result = asm.IntLiteral(data, is_char=expr.is_char)
             case ast.BoolValue():
                 result = asm.IntLiteral(int(expr.data))
             case ast.StringValue():
